@@ -508,17 +508,31 @@ class VmdkSparseGates(MutantSuite):
             out.append({"mut": ["bit", i, m], "magic": bytes(b).hex(), "must_reject": True})
         for mg in (b"VMDK", b"DWOC", b"kdmv", b"\x00\x00\x00\x00", b"QFI\xfb"):
             out.append({"mut": ["value", mg.hex()], "magic": mg.hex(), "must_reject": True})
+        # the SESparse magic is a 64-bit field: the four bytes behind the sniffed ones belong to it
+        for i, m in bitflips(4):
+            b = bytearray(bytes.fromhex("bebafeca00000000"))
+            b[4 + i] ^= m
+            out.append({"mut": ["bit", 4 + i, m], "magic": bytes(b).hex(), "must_reject": True})
+        for hi in (b"\xbe\xba\xfe\xca", b"\xff\xff\xff\xff", b"KDMV"):
+            out.append({"mut": ["value-high", hi.hex()], "magic": "bebafeca" + hi.hex(), "must_reject": True})
         return out
 
     def impl(self, case):
         import io
         from dissect.hypervisor.disk.vmdk import SparseDisk
         buf = bytearray(gzip.open(os.path.join(DATA, "sesparse.vmdk.gz")).read(4 * MB))
-        buf[0:4] = bytes.fromhex(case["magic"])
-        return self.attempt(lambda: SparseDisk(io.BytesIO(bytes(buf))).size)
+        mg = bytes.fromhex(case["magic"])
+        buf[0:len(mg)] = mg
+
+        def go():
+            d = SparseDisk(io.BytesIO(bytes(buf)))
+            d.read_sectors(0, 1)
+            return d.size
+        return self.attempt(go)
 
     def coq_term(self, case):
-        return f"vmdk_sparse_gate {zlist(list(bytes.fromhex(case['magic'])))}"
+        mg = bytes.fromhex(case["magic"]).ljust(8, b"\0")
+        return f"vmdk_layout_gate {zlist(list(mg[:4]))} {int.from_bytes(mg, 'little')}"
 
 
 class VmdkHostedGates(MutantSuite):
